@@ -834,6 +834,22 @@ def gen_C13(rng, tier):
     cases.append(L)
     return cases
 
+def sem_lines(rng, tier):
+    """the operations of the translated Rust subset on boundary operands (compared with RustSem.lean in every build)"""
+    vals = [0, 1, 2, 7, 8, 9, 63, 64, 65, 255, 256, 65535, 65536, 2**32 - 1, 2**32, 2**62, 2**63 - 1, 2**63, 2**63 + 1, MAXU - 1, MAXU]
+    vals += [rng.getrandbits(rng.randrange(1, 65)) for _ in range(12 if tier == 'quick' else 60)]
+    un = ['not', 'count_ones', 'trailing_zeros', 'leading_zeros', 'as_u8', 'as_u16', 'as_u32', 'as_isize', 'isize_as_usize', 'ineg', 'b2u', 'shl_const9', 'shl_const8']
+    bi = ['add', 'sub', 'mul', 'shl', 'shr', 'div', 'rem', 'wrapping_add', 'wrapping_sub', 'wrapping_mul', 'wrapping_shl', 'wrapping_shr',
+          'saturating_add', 'saturating_sub', 'and', 'or', 'xor', 'iadd', 'isub', 'min', 'max']
+    L = []
+    for op in un:
+        for a in vals: L.append('sem %s %d' % (op, a))
+    for op in bi:
+        pairs = [(a, b) for a in vals for b in vals]
+        for a, b in (pairs if tier != 'quick' else rng.sample(pairs, 160) + [(MAXU, 1), (0, 1), (MAXU, MAXU), (1, 64), (1, 63), (2**63, 1), (2**63, 2**63), (5, 0)]):
+            L.append('sem %s %d %d' % (op, a, b))
+    return L
+
 def gen_C14(rng, tier):
     L = ['case C14']
     def add(x):
@@ -864,7 +880,7 @@ def gen_C14(rng, tier):
         if rng.random() < 0.2: x |= rng.getrandbits(64)
         add(x)
     L += ['ut needed_bits %d' % x for x in [0, 1, 2, 3, 255, 256, 2**63, MAXU] + [rng.getrandbits(rng.randrange(1, 65)) for _ in range(50)]]
-    return [L]
+    return [L, ['case C14-rust-semantics'] + sem_lines(rng, tier)]
 
 def gen_C16(rng, tier):
     cases = []
